@@ -5,7 +5,8 @@ P="$(basename "$0" .sh)"
 mkdir -p "$B/$P"
 modfile
 (cd "$V/sim" && go build -modfile="$B/harness.mod" -o "$B/$P/vcheck" ./cmd/vcheck) || infra "build of vcheck failed"
-build_clisim "$B/$P/clisim.test"
+CLISIM_CLOCKED=1 build_clisim "$B/$P/clisim.test"
+export VERIF_CLISIM_CLOCKED=1
 (cd "$REPO" && go build -o "$B/$P/pp" ./cmd/pp) || infra "build of pp failed"
 export VERIF_CLISIM_BIN="$B/$P/clisim.test" VERIF_PP_BIN="$B/$P/pp"
 case "${1:-quick}" in
